@@ -7,7 +7,11 @@ import (
 
 var ifExpression ifExpressionParser
 
-var untilElseIfElseOrEnd = parse.Any(StripType(elseIfExpression), StripType(elseExpression), StripType(closeBraceWithOptionalPadding))
+// The end of a block is recognised by how the next construct starts. Parsing the whole else-if / else
+// block here, only to rewind and parse it again, doubles the work at every level of nesting.
+var untilElseIfElseOrEnd = parse.Any(StripType(elseIfStartParser), StripType(endElseParser), StripType(closeBraceWithOptionalPadding))
+
+var elseIfStartParser = parse.All(parse.OptionalWhitespace, closeBrace, parse.OptionalWhitespace, parse.String("else if"))
 
 type ifExpressionParser struct{}
 
@@ -71,7 +75,7 @@ func (elseIfExpressionParser) Parse(pi *parse.Input) (r ElseIfExpression, ok boo
 	start := pi.Index()
 
 	// Check the prefix first.
-	if _, ok, err = parse.All(parse.OptionalWhitespace, closeBrace, parse.OptionalWhitespace, parse.String("else if")).Parse(pi); err != nil || !ok {
+	if _, ok, err = elseIfStartParser.Parse(pi); err != nil || !ok {
 		pi.Seek(start)
 		return
 	}
